@@ -147,7 +147,7 @@ func c30Txn(rng *c30Rng, hdr *bookkeeping.BlockHeader) transactions.SignedTxnInB
 func c30NextBlock(rng *c30Rng, prev *bookkeeping.Block, ntx int) bookkeeping.Block {
 	b := bookkeeping.MakeBlock(prev.BlockHeader)
 	b.TimeStamp = prev.TimeStamp + int64(1+rng.intn(4))
-	copy(b.Seed[:], rng.bytes(32))
+	copy(b.BlockHeader.Seed[:], rng.bytes(32))
 	b.Payset = nil
 	for i := 0; i < ntx; i++ {
 		b.Payset = append(b.Payset, c30Txn(rng, &b.BlockHeader))
@@ -167,8 +167,8 @@ func c30BuildChain(seed uint64, L int, ntx func(r int, rng *c30Rng) int) *c30Cha
 	ch := &c30Chain{secret: rng.bytes(32)}
 	var gen bookkeeping.Block
 	gen.CurrentProtocol = protocol.ConsensusCurrentVersion
-	gen.GenesisID = "c30-net"
-	copy(gen.GenesisHash[:], rng.bytes(32))
+	gen.BlockHeader.GenesisID = "c30-net"
+	copy(gen.BlockHeader.GenesisHash[:], rng.bytes(32))
 	gen.RewardsState.FeeSink = sinkAddr
 	gen.RewardsState.RewardsPool = poolAddr
 	gen.TimeStamp = 1_700_000_000
@@ -287,7 +287,7 @@ func c30AlterHeader(b *bookkeeping.Block, sub int, rng *c30Rng) {
 	case 0:
 		b.TimeStamp += 1 + int64(rng.intn(5))
 	case 1:
-		b.Seed[rng.intn(32)] ^= byte(1 + rng.intn(255))
+		b.BlockHeader.Seed[rng.intn(32)] ^= byte(1 + rng.intn(255))
 	case 2:
 		b.Branch[rng.intn(32)] ^= byte(1 + rng.intn(255))
 	case 3:
@@ -334,10 +334,16 @@ func c30Build(ch *c30Chain, r basics.Round, kind c30Kind, sub int, rng *c30Rng) 
 		// beyond the canonical chain only these make sense
 		switch kind {
 		case c30BeyondFab, c30Garbage, c30NoBlock, c30Error:
-		default:
+		case c30Honest:
 			kind = c30NoBlock
-			resp.kind = kind
+		default:
+			if rng.intn(2) == 0 {
+				kind = c30BeyondFab
+			} else {
+				kind = c30NoBlock
+			}
 		}
+		resp.kind = kind
 	} else if kind == c30BeyondFab {
 		kind = c30ForgedPair
 		resp.kind = kind
